@@ -7,6 +7,11 @@
 //   c19 exh-f32 <lo> <hi> <thr>     every float bit pattern in [lo, hi): reservation, characters, round trip
 //   c19 exh-u32 / exh-i32 <lo> <hi> <thr>   every 32-bit integer in [lo, hi)
 //   c19 exh-halves <thr>            every 8-digit half of the 16-digit SSE2 core of ToString(uint64_t)
+//   c19 classify-f32 <lo> <hi> <thr>  hardness classifier (properties of IEEE arithmetic / the digit generator, computed
+//                                   with libc strtof/strtod, NOT with kenlm's reader): prints `bits class[,class] detail`
+//   c19 classify-f64 <n> <seed> <thr>  the same for n pseudo-random doubles (long double as the wider format)
+//   c19 arpa <file>                 every probability / back-off token of an ARPA file: FilePiece::ReadFloat == strtof,
+//                                   util::ToString(value) == the token
 //   c19 find-class f32|f64 <neg> <ndigits> <point> <seed>   a value whose shortest digits fall in the class
 //   c19 exact f32|f64|u64|i64 <v>   replay: ToString into a heap block of exactly kBytes (ASan reports an overflow)
 //   c19 filestream f32|f64 <bits>   replay: FileStream positioned kBytes before the end of its buffer
@@ -14,6 +19,7 @@
 // The oracle measures the bytes *stored* (text + StringBuilder's NUL for floats; the unconditional
 // 16-byte SSE store for integers) with a two-pattern canary.
 #include "util/double-conversion/double-conversion.h"
+#include "util/double-conversion/fast-dtoa.h"
 #include "util/exception.hh"
 #include "util/file.hh"
 #include "util/file_piece.hh"
@@ -510,6 +516,185 @@ int Exhaustive(int kind, uint64_t lo, uint64_t hi, int threads) {
   return 0;
 }
 
+// ---------------------------------------------------------------- hardness classifier
+// Classes (all about the float, its shortest text t and IEEE arithmetic; kenlm's reader is not involved):
+//   dr    double-rounding sensitive: strtof(t) == f but (float)strtod(t) != f
+//   mid   t is not exactly representable in double and strtod(t) lies within kMidUlps double-ulps of a midpoint between
+//         two adjacent floats (detail = distance); a reader that rounds twice or truncates digits can go wrong here
+//   tie   t is exactly a midpoint between two adjacent floats (round-half-even decides)               [sampled]
+//   big   Grisu's fast path gives up for this value (bignum fallback of the digit generator)          [sampled]
+//   d9    the shortest text needs the maximum of 9 significant digits                                 [sampled]
+//   pow2  mantissa zero: the rounding interval is asymmetric                                          [all]
+const double kMidUlps = 64;
+struct ClassJob { uint64_t lo, hi; std::string out; uint64_t counts[6]; pthread_t th; };
+
+inline bool Sampled(uint32_t bits, unsigned one_in_log2) {
+  return ((bits * 2654435761u) >> (32 - one_in_log2)) == 0;
+}
+
+void *RunClassify(void *arg) {
+  ClassJob &j = *static_cast<ClassJob*>(arg);
+  char line[160];
+  for (uint64_t b = j.lo; b < j.hi; ++b) {
+    float f = FromBits<float>((uint32_t)b);
+    if (f != f || std::isinf(f) || f == 0) continue;
+    char t[64];
+    char *e = util::ToString(f, t); *e = 0;
+    std::string cls; double dist = -1;
+    float viaf = strtof(t, NULL);
+    double d = strtod(t, NULL);
+    if (ToBits(viaf) == (uint32_t)b && ToBits((float)d) != (uint32_t)b) { cls += "dr,"; ++j.counts[0]; }
+    {
+      float g = (float)d;
+      float up = nextafterf(g, INFINITY), dn = nextafterf(g, -INFINITY);
+      double ulp = nextafter(fabs(d), INFINITY) - fabs(d);
+      double best = 1e300;
+      if (!std::isinf(up) && !std::isinf(g)) best = std::min(best, fabs(d - ((double)g + (double)up) * 0.5) / ulp);
+      if (!std::isinf(dn) && !std::isinf(g)) best = std::min(best, fabs(d - ((double)g + (double)dn) * 0.5) / ulp);
+      if (best <= kMidUlps) {
+        // exact decimal (the text is representable in double, checked with the wider long double) on a midpoint = a true
+        // tie that round-half-even must resolve: very many for integer-valued floats above 2^24, therefore sampled
+        bool exact = (long double)d == strtold(t, NULL);
+        if (exact && best == 0) { ++j.counts[5]; if (Sampled((uint32_t)b, 10)) { cls += "tie,"; dist = 0; } }
+        else if (!exact) { cls += "mid,"; dist = best; ++j.counts[1]; }
+      }
+    }
+    if ((b & 0x7FFFFF) == 0) { cls += "pow2,"; ++j.counts[4]; }
+    {
+      char buf[32]; int len, point;
+      double_conversion::Vector<char> v(buf, sizeof buf);
+      bool fast = double_conversion::FastDtoa(fabs((double)f), double_conversion::FAST_DTOA_SHORTEST_SINGLE, 0, v, &len, &point);
+      if (!fast) { ++j.counts[2]; if (Sampled((uint32_t)b, 9)) cls += "big,"; }
+      // significant digits of the text: digits before 'e' without leading zeros and without the padding
+      // zeros of an integer-valued decimal ("ddd000")
+      std::string dg; bool dot = false;
+      for (char *p = t; *p && *p != 'e'; ++p) { if (*p == '.') dot = true; else if (*p >= '0' && *p <= '9') dg += *p; }
+      size_t a = dg.find_first_not_of('0');
+      dg = a == std::string::npos ? "" : dg.substr(a);
+      if (!dot) while (!dg.empty() && dg[dg.size() - 1] == '0') dg.erase(dg.size() - 1);
+      if (dg.size() == 9) { ++j.counts[3]; if (Sampled((uint32_t)b, 14)) cls += "d9,"; }
+    }
+    if (!cls.empty()) {
+      cls.erase(cls.size() - 1);
+      snprintf(line, sizeof line, "%u %s text=%s%s", (unsigned)b, cls.c_str(), t, "");
+      j.out += line;
+      if (dist >= 0) { snprintf(line, sizeof line, " dulps=%.3g", dist); j.out += line; }
+      j.out += '\n';
+    }
+  }
+  return NULL;
+}
+
+int Classify(uint64_t lo, uint64_t hi, int threads) {
+  std::vector<ClassJob> jobs(threads);
+  uint64_t span = (hi - lo + threads - 1) / threads;
+  for (int t = 0; t < threads; ++t) {
+    jobs[t].lo = std::min(hi, lo + span * t); jobs[t].hi = std::min(hi, jobs[t].lo + span);
+    memset(jobs[t].counts, 0, sizeof jobs[t].counts);
+    pthread_create(&jobs[t].th, NULL, RunClassify, &jobs[t]);
+  }
+  uint64_t c[6] = {0, 0, 0, 0, 0, 0};
+  for (int t = 0; t < threads; ++t) {
+    pthread_join(jobs[t].th, NULL);
+    fputs(jobs[t].out.c_str(), stdout);
+    for (int k = 0; k < 6; ++k) c[k] += jobs[t].counts[k];
+  }
+  printf("# totals dr=%" PRIu64 " mid=%" PRIu64 " big=%" PRIu64 " d9=%" PRIu64 " pow2=%" PRIu64 " tie=%" PRIu64 "\n", c[0], c[1], c[2], c[3], c[4], c[5]);
+  return 0;
+}
+
+// doubles: n pseudo-random finite doubles; the wider format is x87 long double (64-bit significand)
+struct Class64Job { uint64_t n, seed; std::string out; pthread_t th; };
+void *RunClassify64(void *arg) {
+  Class64Job &j = *static_cast<Class64Job*>(arg);
+  uint64_t x = j.seed * 0x9E3779B97F4A7C15ULL + 12345;
+  char line[200];
+  for (uint64_t i = 0; i < j.n; ++i) {
+    x ^= x << 13; x ^= x >> 7; x ^= x << 17;
+    double v = FromBits<double>(x);
+    if (v != v || std::isinf(v) || v == 0) continue;
+    char t[64];
+    char *e = util::ToString(v, t); *e = 0;
+    long double w = strtold(t, NULL);
+    double g = (double)w;
+    double up = nextafter(g, INFINITY), dn = nextafter(g, -INFINITY);
+    if (std::isinf(up) || std::isinf(dn) || std::isinf(g)) continue;
+    long double ulp = nextafterl(fabsl(w), INFINITY) - fabsl(w);
+    long double best = std::min(fabsl(w - ((long double)g + (long double)up) * 0.5L), fabsl(w - ((long double)g + (long double)dn) * 0.5L)) / ulp;
+    bool dr = ToBits(strtod(t, NULL)) == x && ToBits(g) != x;
+    if (best <= 1.0L || dr) {
+      snprintf(line, sizeof line, "%" PRIu64 " %s text=%s ldulps=%.3Lg\n", x, dr ? "dr,mid" : "mid", t, best);
+      j.out += line;
+    }
+  }
+  return NULL;
+}
+int Classify64(uint64_t n, uint64_t seed, int threads) {
+  std::vector<Class64Job> jobs(threads);
+  for (int t = 0; t < threads; ++t) {
+    jobs[t].n = n / threads; jobs[t].seed = seed * 1000 + t + 1;
+    pthread_create(&jobs[t].th, NULL, RunClassify64, &jobs[t]);
+  }
+  for (int t = 0; t < threads; ++t) { pthread_join(jobs[t].th, NULL); fputs(jobs[t].out.c_str(), stdout); }
+  return 0;
+}
+
+// ---------------------------------------------------------------- ARPA files written by kenlm tools
+// Every probability / back-off token: FilePiece::ReadFloat(token) bits == strtof(token) bits, and printing the
+// value again with util::ToString gives the token itself (the tools print with the same shortest formatter).
+int Arpa(const char *path) {
+  std::vector<std::string> tokens;
+  {
+    util::FilePiece in(path);
+    int order = 0;
+    try {
+      while (true) {
+        StringPiece l = in.ReadLine();
+        std::string line(l.data(), l.size());
+        if (line.empty()) continue;
+        if (line[0] == '\\') {
+          order = 0;
+          if (line.size() > 8 && line.compare(line.size() - 7, 7, "-grams:") == 0) order = atoi(line.c_str() + 1);
+          continue;
+        }
+        if (!order) continue;
+        std::vector<std::string> f;
+        size_t b = 0;
+        while (true) { size_t tpos = line.find('\t', b); f.push_back(line.substr(b, tpos - b)); if (tpos == std::string::npos) break; b = tpos + 1; }
+        tokens.push_back(f[0]);
+        if (f.size() >= 3) tokens.push_back(f.back());
+      }
+    } catch (const util::EndOfFileException &e) {}
+  }
+  std::string batch;
+  for (size_t i = 0; i < tokens.size(); ++i) { batch += tokens[i]; batch += '\n'; }
+  uint64_t bad_read = 0, bad_text = 0;
+  std::vector<std::string> first;
+  int fd = MemFD();
+  WriteAll(fd, batch.data(), batch.size());
+  lseek(fd, 0, SEEK_SET);
+  if (!tokens.empty()) {
+    util::FilePiece f(fd, "tokens", NULL, 1 << 20);
+    for (size_t i = 0; i < tokens.size(); ++i) {
+      float v; bool ok = true;
+      try { v = f.ReadFloat(); } catch (const std::exception &e) { ok = false; v = 0; try { f.ReadLine(); } catch (...) {} }
+      float ref = strtof(tokens[i].c_str(), NULL);
+      if (!ok || ToBits(v) != ToBits(ref)) {
+        ++bad_read;
+        if (first.size() < 5) first.push_back("token " + tokens[i] + (ok ? " read differently from strtof" : " read error"));
+      }
+      char t[64]; char *e = util::ToString(ref, t);
+      if (std::string(t, e - t) != tokens[i]) {
+        ++bad_text;
+        if (first.size() < 5) first.push_back("token " + tokens[i] + " re-prints as " + std::string(t, e - t));
+      }
+    }
+  } else close(fd);
+  printf("tokens=%zu read_mismatches=%" PRIu64 " reprint_mismatches=%" PRIu64 "\n", tokens.size(), bad_read, bad_text);
+  for (size_t i = 0; i < first.size(); ++i) printf("first: %s\n", first[i].c_str());
+  return 0;
+}
+
 // ---------------------------------------------------------------- guided search helper
 template <class T> int FindClass(int neg, int ndigits, int point, uint64_t seed) {
   uint64_t x = seed * 6364136223846793005ULL + 1442695040888963407ULL;
@@ -574,6 +759,9 @@ int main(int argc, char **argv) {
   if (mode == "exh-u32" && argc == 5) return Exhaustive(1, strtoull(argv[2], 0, 10), strtoull(argv[3], 0, 10), atoi(argv[4]));
   if (mode == "exh-i32" && argc == 5) return Exhaustive(2, strtoull(argv[2], 0, 10), strtoull(argv[3], 0, 10), atoi(argv[4]));
   if (mode == "exh-halves" && argc == 5) return Exhaustive(3, strtoull(argv[2], 0, 10), strtoull(argv[3], 0, 10), atoi(argv[4]));
+  if (mode == "classify-f32" && argc == 5) return Classify(strtoull(argv[2], 0, 10), strtoull(argv[3], 0, 10), atoi(argv[4]));
+  if (mode == "classify-f64" && argc == 5) return Classify64(strtoull(argv[2], 0, 10), strtoull(argv[3], 0, 10), atoi(argv[4]));
+  if (mode == "arpa" && argc == 3) return Arpa(argv[2]);
   if (mode == "find-class" && argc == 7) {
     std::string t = argv[2];
     if (t == "f32") return FindClass<float>(atoi(argv[3]), atoi(argv[4]), atoi(argv[5]), strtoull(argv[6], 0, 10));
